@@ -3,3 +3,6 @@ import Desync.Generated.Facts
 import Desync.Model.Format
 import Desync.Model.IndexCodec
 import Desync.Properties.C04
+import Desync.Model.Archive
+import Desync.Proofs.GoodbyeProofs
+import Desync.Properties.C02
